@@ -24,11 +24,13 @@ UnaryOps == {"wrap_pie", "password_wrap", "public_key", "display", "debug", "exp
              "serde_key",
              \* converting a key into its text form without the explicit expose call (From / Into)
              "into_keytext",
+             \* nor by handing the key to caller-supplied code: Hash feeds the material into any Hasher; == between secrets is not offered either
+             "key_hash", "key_eq",
              \* keys are Send and Sync (C17 relies on sharing them between threads)
              "send_sync"}
 \* operations on tokens
 TokenOps == {"decrypt_encrypted", "verify_signed", "verify_encrypted", "decrypt_signed",
-             "display_sealed", "display_unsealed", "serde_sealed", "serde_unsealed", "claims_of_sealed", "footer_unverified",
+             "display_sealed", "display_unsealed", "serde_sealed", "serde_unsealed", "serde_unsealed_claims", "serde_unencrypted_claims", "seal_inferred", "wrap_inferred", "claims_of_sealed", "footer_unverified",
              "footer_field_of_sealed", "payload_field_of_sealed", "claims_of_unsealed", "footer_of_unsealed", "debug_sealed",
              \* the backend crates' own aliases denote exactly the core types their names say
              \* the purpose-named entry points with an explicit assertion, on a token of the other purpose with the key that fits the token
@@ -42,7 +44,7 @@ SoftOps == {"display", "id", "clone", "expose_to_string", "random", "from_bytes3
 SecretHolding == {"Local", "Secret", "PkeSecret"}
 UnaryKinds(op) == IF op = "display" THEN {"Local", "Public", "Secret", "PkeSecret"}      \* no secret-holding kind prints
                   ELSE IF op \in SoftOps THEN {"Local", "Public", "Secret"}
-                  ELSE IF op \in {"debug", "private_field", "serde_key", "into_keytext"} THEN SecretHolding ELSE Kinds
+                  ELSE IF op \in {"debug", "private_field", "serde_key", "into_keytext", "key_hash", "key_eq"} THEN SecretHolding ELSE Kinds
 
 Points ==
   [op : KeyOps, k : Kinds, rel : Rel]
@@ -71,6 +73,9 @@ Permitted(p) ==
     [] p.op = "debug" -> FALSE
     [] p.op = "serde_key" -> FALSE                                       \* nor through serde (a struct that merely holds a key must not leak it)
     [] p.op = "into_keytext" -> FALSE
+    [] p.op \in {"key_hash", "key_eq"} -> FALSE
+    [] p.op \in {"serde_unsealed_claims", "serde_unencrypted_claims"} -> FALSE   \* whatever the claims type is
+    [] p.op \in {"seal_inferred", "wrap_inferred"} -> TRUE                       \* correct programs keep compiling
     [] p.op = "send_sync" -> TRUE
     [] p.op = "private_field" -> FALSE                                   \* key material only through the explicit expose call
     [] p.op = "expose_to_string" -> TRUE
